@@ -210,6 +210,65 @@ setId n1 id 1
 getById n0 x
 remAttr n1 id
 getById n0 x''',
+ # ---- found by the thorough tier (notes/C14.md, findings 12-14 and oracle corrections)
+ 'deep-list-pool-tagNS-null-then-tag': '''newdoc=n0 ~ r 0
+bind=n1 n0 de
+cENS=n2 n0 urn:u1 p:a
+app n1 n2
+mkList v0 tagNS n1 ~ *
+mkList v1 tag n1 *
+list v1 all
+list v0 all''',
+ 'deep-list-pool-tag-then-tagNS-null': '''newdoc=n0 ~ r 0
+bind=n1 n0 de
+cE=n2 n0 a
+app n1 n2
+mkList v0 tag n1 a
+mkList v1 tagNS n1 ~ a
+list v1 all
+list v0 all''',
+ 'map-getNamedItem-after-ns-replacement': '''newdoc=n0 ~ r 0
+bind=n1 n0 de
+setAttr n1 id 1
+setAttr n1 xml:lang 2
+setAttrNS n1 urn:u2 b 3
+mkMap v0 n1
+setAttrNS n1 urn:u2 q:b 4
+map v0 names
+map v0 get q:b''',
+ 'range-insertNode-fragment-two-elements-into-document': '''newdoc=n0 ~ ~ 0
+cDF=n1 n0
+cE=n2 n0 a
+cE=n3 n0 b
+app n1 n2
+app n1 n3
+mkRange v0 n0
+rg v0 insertNode n1
+rg v0 get''',
+ 'range-delete-other-range-queried-late': '''newdoc=n0 ~ r 0
+bind=n1 n0 de
+cT=n2 n0 hello
+cE=n3 n0 e
+app n1 n2
+app n1 n3
+mkRange v0 n0
+mkRange v1 n0
+rg v1 setStart n2 1
+rg v1 setEnd n2 1
+rg v0 setStart n2 3
+rg v0 setEnd n1 2
+rg v0 delete
+normalize n3
+rg v1 get''',
+ 'range-cloneRange-after-split-of-parentless-text': '''newdoc=n0 ~ r 0
+cT=n1 n0 hello
+mkRange v0 n0
+rg v0 setStart n1 0
+rg v0 setEnd n1 4
+splitText=n2 n1 2
+rg v0 get
+rg v0 cloneRange v1
+rg v1 get''',
 }
 
 TIERS = {
@@ -226,7 +285,8 @@ ASSUMPTIONS = [
     'NodeFilter results are a pure function of node type / name / emptiness; when whatToShow hides a node the filter is not consulted (DOM Traversal 1.1.2)',
     'TreeWalker navigation is only compared while the current node lies inside the root subtree (DOM leaves the other case open)',
     'Range: setters given a node of another document, insertNode at the edge of a Text node, boundary points inside comments / PIs for '
-    'insertNode and surroundContents, boundary containers inside a released subtree: not decided by the model (skipped, counted)',
+    'insertNode and surroundContents, boundary containers inside a released subtree, cloneRange / toString / comparison / content operations '
+    'of a range whose boundary points lie in two trees (splitText of a parentless Text node): not decided by the model (skipped, counted)',
     'getElementById is only compared when at most one live attribute carries the value as a user-determined ID and its element is in the document',
     'XPath evaluation results are not covered by this check (DOMXPathExpression here implements the schema XPath subset and keeps no live state)',
 ]
